@@ -4,6 +4,7 @@ observed behaviour.  Imports Spec only (plus the wire helpers), so it still buil
 generated or hand-written model of the code does not.
 -/
 import Switcher.Spec.Frame
+import Switcher.Spec.Devices
 import Switcher.Model.Wire
 open Spec Wire
 
@@ -20,6 +21,17 @@ def judge : List String → String
     match bytesOfHex? hx with
     | some bs => if wellFormedB bs then "1" else "0"
     | none => "bad-arg"
+  | ["c19accept", cls, catOfType, observed] =>   -- class accepts the type iff the type's category is the class's
+    match categoryOfClass cls with
+    | some cat => if (observed == "1") == (catOfType == cat) then "1" else "0"
+    | none => "bad-arg"
+  | ["c19ports", ptype, udp, tcp] =>              -- category ports are those of the protocol type
+    match nat? ptype, nat? udp, nat? tcp with
+    | some p, some u, some c => if portsOfProtocol p == some (u, c) then "1" else "0"
+    | _, _, _ => "bad-arg"
+  | ["c19codes", codes] =>                        -- model codes: two bytes each, pairwise distinct
+    let cs := codes.splitOn ","
+    if cs.all isHex4 && cs.eraseDups.length == cs.length then "1" else "0"
   | _ => "bad-op"
 
 def main : IO Unit := do Wire.loop (← IO.getStdin) (← IO.getStdout) judge
